@@ -81,7 +81,8 @@ fn main() {
         let mut src = ByteSrc::new(vals);
         f(&mut src);
     });
-    let (outcome, msg) = match res {
+    let failed = rsass_verif_harness::src::take_failures();
+    let (mut outcome, msg) = match res {
         Ok(()) => ("pass", String::new()),
         Err(e) => {
             if e.downcast_ref::<AssumeFailed>().is_some() {
@@ -95,10 +96,15 @@ fn main() {
             }
         }
     };
+    if outcome == "pass" && !failed.is_empty() {
+        outcome = "fail";
+    }
+    let labels: Vec<String> = failed.iter().map(|l| format!("\"{}\"", esc(l))).collect();
     println!(
-        "{{\"harness\":\"{}\",\"outcome\":\"{}\",\"message\":\"{}\"}}",
+        "{{\"harness\":\"{}\",\"outcome\":\"{}\",\"message\":\"{}\",\"failed_labels\":[{}]}}",
         esc(name),
         outcome,
-        esc(&msg)
+        esc(&msg),
+        labels.join(",")
     );
 }
